@@ -257,6 +257,7 @@ class _AttrBase(Prop):
 
 
 class C03(_AttrBase):
+    observed_from_suite = ["EscapeTrace"]
     id = "C03"
     design_ref = "DESIGN.md section 3, C03"
     rule = ("attribute histories (construction, update, item assignment, add_class/add_style, several values for one "
